@@ -4,7 +4,7 @@
 From Coq Require Import PrimFloat ZArith List Bool Lia ZifyBool ZifyNat Sorting.Sorted Sorting.Permutation.
 From EsVerif.Common Require Import Base.
 From EsVerif.C05 Require Import Model Spec PassProofs Properties.
-From EsVerif.C14 Require Import Model Spec Proofs NumBinProofs.
+From EsVerif.C14 Require Import Model Spec StatProofs Proofs NumBinProofs.
 Ltac Zify.zify_post_hook ::= Z.to_euclidean_division_equations.
 Open Scope Z_scope.
 
@@ -584,12 +584,65 @@ Proof.
       rewrite H in HM. fold n in HM. fold N in HM.
       apply (final_slices x wsort k Hk Hn true (N - 1)); [|lia|exact HM].
       rewrite HC. replace (k <? n) with true by nia.
-      replace (n mod k =? 0) with false by (symmetry; apply Z.eqb_neq; nia).
-      cbn [negb andb]. nia.
+      pose proof (Z.div_mod n k ltac:(lia)) as D. pose proof (Z.mod_pos_bound n k ltac:(lia)) as Db.
+      assert (Hq1 : N - 1 <= n / k) by nia. assert (Hq2 : n / k <= N - 1) by nia.
+      assert (Hmod : n mod k <> 0) by (intro Hm; rewrite Hm in D; nia).
+      replace (n mod k =? 0) with false by (symmetry; apply Z.eqb_neq; exact Hmod).
+      cbn [negb andb]. lia.
   - injection H as <- <- <- <-.
     apply (final_slices x wsort k Hk Hn merge N); [|lia|exact HFin].
     rewrite HC.
     destruct merge; cbn [andb]; [|reflexivity].
     rewrite andb_true_r in Ec. apply negb_false_iff in Ec. apply Z.eqb_eq in Ec.
-    replace (n mod k =? 0) with true by (symmetry; apply Z.eqb_eq; nia). reflexivity.
+    assert (Hmod : n mod k = 0) by (replace n with (N * k) by lia; apply Z.mod_mul; lia).
+    replace (n mod k =? 0) with true by (symmetry; apply Z.eqb_eq; exact Hmod). reflexivity.
+Qed.
+
+(* ------------------------------------------------------------------ end to end *)
+Lemma limits_nonempty x lo hi dmin dmax w : limits x (argsort x) lo hi = Ok (dmin, dmax, w) -> w <> [].
+Proof.
+  unfold limits. intro H.
+  destruct lo as [l|], hi as [h|], (argsort x) as [|a s] eqn:Es; try discriminate;
+    repeat match type of H with
+    | context[match filter ?f ?l with _ => _ end] => destruct (filter f l) eqn:?
+    end; try discriminate; injection H as _ _ <-; discriminate.
+Qed.
+
+(* Binner(x, y, weights).dohist(nperbin=k, mergelast=merge, min=, max=) as modelled: whenever the
+   selected data come in stable sorted order (the contract of numpy's argsort, decided on every
+   case by the checker), the result is the property: bins are the chunks of that order, hist
+   their sizes, low/high the first/last member's value, rev refers to the original array, and
+   rows that agree with the model's statistics are those of the members. *)
+Theorem binner_num_spec c lo hi k merge b dmin dmax wsort rows :
+  binner_num true c lo hi k merge = Ok b -> cols_ok c = true -> 1 <= k ->
+  limits (c_x c) (argsort (c_x c)) lo hi = Ok (dmin, dmax, wsort) ->
+  ordered (c_x c) wsort -> Permutation wsort (selected c lo hi) ->
+  rows_meet rows (n_rows b) = true ->
+  num_ok c lo hi k merge (n_hist b) (n_rev b) (n_low b) (n_high b) rows.
+Proof.
+  intros HB OK Hk HL HO HP HR.
+  assert (Hne := limits_nonempty _ _ _ _ _ _ HL).
+  unfold binner_num in HB. rewrite (cols_ok_same_len c OK) in HB. cbn [negb] in HB. rewrite HL in HB.
+  replace (k <? 1) with false in HB by lia.
+  destruct (hist_by_num (c_x c) wsort k merge) as [[[hist rev] low] high] eqn:HH.
+  injection HB as <-. cbn [n_hist n_rev n_low n_high n_rows] in *.
+  destruct (hist_by_num_spec (c_x c) wsort k merge hist rev low high Hk Hne HH) as [L1 [L2 [L3 [_ HS]]]].
+  set (ch := chunks (length wsort) (Z.to_nat k) merge wsort) in *.
+  exists wsort. split; [exact HP|]. split; [exact HO|]. fold ch.
+  split; [exact L1|]. split; [exact L2|]. split; [exact L3|]. split.
+  - intros i Hi. destruct (HS i Hi) as [_ [S1 [S2 [_ [S4 [S5 [S6 S7]]]]]]].
+    unfold chunk_ok. repeat split; try assumption; unfold sf_eq; [rewrite S6 | rewrite S7]; reflexivity.
+  - apply (stats_of_members _ _ _ rev).
+    + exact OK.
+    + intros i Hi. unfold inrange. apply Forall_forall. intros j Hj.
+      destruct (Nat.lt_ge_cases (Z.to_nat i) (length ch)) as [Hlt|Hge].
+      * apply indices_range.
+        assert (Hs : In j wsort) by (eapply chunks_incl; [apply nth_In; exact Hlt | exact Hj]).
+        apply (Permutation_in _ HP) in Hs. unfold selected in Hs. apply filter_In in Hs. apply Hs.
+      * rewrite nth_overflow in Hj by assumption. contradiction.
+    + lia.
+    + intros i Hi. rewrite bin_slice_eq.
+      destruct (HS (Z.to_nat i) ltac:(lia)) as [_ [_ [_ [_ [S4 _]]]]].
+      replace (Z.of_nat (Z.to_nat i)) with i in S4 by lia. rewrite S4. apply Permutation_refl.
+    + rewrite <- L1. exact HR.
 Qed.
